@@ -185,18 +185,24 @@
   (or (eq? (bag-comparator bag1) (bag-comparator bag2))
       (error "can't compare bags with different comparators" bag1 bag2)))
 
+;; every element occurs in bag2 at least as often as in bag1
+(define (bag-counts<=? bag1 bag2)
+  (bag-every? (lambda (elt)
+                (<= (bag-element-count bag1 elt) (bag-element-count bag2 elt)))
+              bag1))
+
 (define (bag=? bag1 . bags)
   (or (null? bags)
       (and (comparable-bags? bag1 (car bags))
            (= (bag-size bag1) (bag-size (car bags)))
-           (bag-every? (lambda (elt) (bag-contains? bag1 elt)) (car bags))
+           (bag-counts<=? bag1 (car bags))
            (apply bag=? bags))))
 
 (define (bag<? bag1 . bags)
   (or (null? bags)
       (and (comparable-bags? bag1 (car bags))
            (< (bag-size bag1) (bag-size (car bags)))
-           (bag-every? (lambda (elt) (bag-contains? (car bags) elt)) bag1)
+           (bag-counts<=? bag1 (car bags))
            (apply bag<? bags))))
 
 (define (bag>? . bags)
@@ -206,7 +212,7 @@
   (or (null? bags)
       (and (comparable-bags? bag1 (car bags))
            (<= (bag-size bag1) (bag-size (car bags)))
-           (bag-every? (lambda (elt) (bag-contains? (car bags) elt)) bag1)
+           (bag-counts<=? bag1 (car bags))
            (apply bag<=? bags))))
 
 (define (bag>=? . bags)
